@@ -61,6 +61,7 @@ fn main() {
         "ord-cases" => ord::cases(rest),
         "ord-props" => ord::props(rest),
         "ord-show" => ord::show(rest),
+"ord-replay" => ord::replay(rest),
         "ord-mc-rep" => ord::mc_rep(rest),
         "ord-mc" => ord::mc(rest),
         "sk-props" => sk::props(rest),
